@@ -227,14 +227,13 @@ def unfocus_fixed_sampling_backprop(wavefunction, input_dx, prop_dist,
     if not isinstance(output_samples, Iterable):
         output_samples = (output_samples, output_samples)
 
-    dias = [output_dx * s for s in output_samples]
-    dia = max(dias)
-    Q = Q_for_sampling(input_diameter=dia,
-                       prop_dist=prop_dist,
-                       wavelength=wavelength,
-                       output_dx=input_dx)  # not a typo
-
-    Q /= wavefunction.shape[0] / output_samples[0]
+    # the Q of the forward routine: there, the array being propagated had output_samples samples and the
+    # result had wavefunction.shape samples of spacing output_dx (here wavefunction is the gradient w.r.t. that result)
+    Q = tuple(Q_for_sampling(input_diameter=output_dx * sg,
+                             prop_dist=prop_dist,
+                             wavelength=wavelength,
+                             output_dx=input_dx) / (so / sg)  # not a typo
+              for sg, so in zip(wavefunction.shape, output_samples))
 
     if shift[0] != 0 or shift[1] != 0:
         shift = (shift[0]/output_dx, shift[1]/output_dx)
@@ -547,12 +546,14 @@ def to_fpm_and_back_backprop(wavefunction, dx, wavelength, efl, fpm, fpm_dx=None
         fpm_samples = fpm.shape
 
     # do not take complex conjugate of reals (no-op, but numpy still does it)
-    if np.iscomplexobj(fpm.dtype):
+    if np.iscomplexobj(fpm):
         fpm = fpm.conj()
 
-    Ebbar = -unfocus_fixed_sampling_backprop(wavefunction, fpm_dx, efl, wavelength, dx, fpm_samples)
+    # adjoint of each step of to_fpm_and_back, in reverse order and with the same shifts and method
+    shift_back = (shift[0] / fpm_dx * dx, shift[1] / fpm_dx * dx)
+    Ebbar = unfocus_fixed_sampling_backprop(wavefunction, fpm_dx, efl, wavelength, dx, fpm_samples, shift=shift_back, method=method)
     intermediate = Ebbar * fpm
-    Eabar = focus_fixed_sampling_backprop(intermediate, dx, efl, wavelength, fpm_dx, wavefunction.shape)
+    Eabar = focus_fixed_sampling_backprop(intermediate, dx, efl, wavelength, fpm_dx, wavefunction.shape, shift=shift, method=method)
     if return_more:
         return Eabar, Ebbar, intermediate
     else:
@@ -1261,9 +1262,9 @@ class Wavefront:
         else:
             cbar = dbar
 
-        # minus from Ebefore minus Eafter fpm
+        # babinet is lyot * (field - through_the_complement(field)): the adjoint subtracts as well
         cbarW = Wavefront(cbar, self.wavelength, self.dx, self.space)
         abar = cbarW.to_fpm_and_back_backprop(efl=efl, fpm=fpm, fpm_dx=fpm_dx, method=method)
 
-        abar.data += cbar
+        abar.data = cbar - abar.data
         return abar
